@@ -1,4 +1,5 @@
 import Goirc.Proofs.Line
+import Goirc.Proofs.ParseRender
 /-!
 # C01 — Well-formed IRC messages parse to exactly the components that were sent
 
@@ -62,6 +63,16 @@ theorem raw_unchanged (ext : UnicodeExt) (s : Bytes) (l : Line) (h : parseLine e
     · exact hsrc _ _ _ h
     · simp at h
   · exact hsrc _ _ _ h
+
+/-- the round trip: every well-formed message, put on the wire by `render`, is accepted by the
+parser, and the parsed line is *exactly* the line `expected` describes — tags unescaped (and no tag
+map when no tag section was sent; the association lists are equal on the nose, not merely as finite
+maps), source split or kept whole as host, verb upper-cased, middles followed by the trailing, raw
+text unchanged, and the CTCP / ACTION rewriting applied — for every behaviour of `ToUpper` on
+non-ASCII input. -/
+theorem parse_render (ext : UnicodeExt) (m : Msg) (h : m.wf = true) :
+    parseLine ext (render m) = some (expected ext m) :=
+  Go.parse_render_eq ext m h
 
 /-- non-vacuity of `Msg.wf`: a tagged CTCP message, a numeric with 14 middles -/
 example : (Msg.mk (some [(lit "a", some (lit "b; c")), (lit "k", none)]) (some (.user (lit "n") (lit "u") (lit "h")))
